@@ -19,11 +19,11 @@ from pbv import core, impl, integ, scen, tables
 CFG = {"c1": {"max_calc_step_size_feet": 2.0}, "c2": {"max_calc_step_size_feet": 3.0, "cMinimumVelocity": 100.0}}
 DIST = {"d1": 100.0, "d2": 250.0}       # yards
 GRAPH = dict(Shots='{"s1", "s2", "s3"}', Calcs='{"c1", "c2"}', WeaponOf='[s1 |-> "w1", s2 |-> "w2", s3 |-> "w1"]',
-             AmmoOf='[s1 |-> "a1", s2 |-> "a1", s3 |-> "a2"]', Distances='{"d1", "d2"}', Requests='{"plain", "extra", "timed"}',
+             AmmoOf='[s1 |-> "a1", s2 |-> "a1", s3 |-> "a2"]', Distances='{"d1", "d2"}', Requests='{"plain", "extra", "timed", "fine"}',
              Ops='{"Fire", "FireRaises", "ZeroRaises", "Danger", "Build", "EditTable", "FireBadTable", "Redisplay", "Zero"}', MaxEdits=2)
 # focused sub-alphabets enumerated EXHAUSTIVELY by TLC (every history of the given length): one calculator, one shot, the
 # operations that compute and the caller's in-place edit - every "computation / edit / computation" sandwich occurs
-FOCUS = [dict(Shots='{"s3"}', Calcs='{"c1"}', WeaponOf='[s3 |-> "w1"]', AmmoOf='[s3 |-> "a2"]', Distances='{"d1"}', Requests='{"plain"}',
+FOCUS = [dict(Shots='{"s3"}', Calcs='{"c1"}', WeaponOf='[s3 |-> "w1"]', AmmoOf='[s3 |-> "a2"]', Distances='{"d1"}', Requests='{"plain", "fine"}',
               Ops='{"Fire", "Zero", "Danger", "EditTable"}', DirtRule='"ignored"', MaxEdits=3),
          dict(Shots='{"s1"}', Calcs='{"c2"}', WeaponOf='[s1 |-> "w1"]', AmmoOf='[s1 |-> "a1"]', Distances='{"d2"}', Requests='{"extra"}',
               Ops='{"Fire", "Zero", "EditTable", "Redisplay"}', DirtRule='"ignored"', MaxEdits=3)]
@@ -162,8 +162,12 @@ def do_op(pool: Pool, e):
     calc, shot = pool.calcs[e["c"]], pool.shots[e["s"]]
     try:
         if a == "Fire":
-            kw = {"plain": {}, "extra": {"extra_data": True}, "timed": {"time_step": 0.05}}[e["arg"]]
-            hr = calc.fire(shot, U.Foot(600), U.Foot(100), **kw)
+            kw = {"plain": {}, "extra": {"extra_data": True}, "timed": {"time_step": 0.05}, "fine": {}}[e["arg"]]
+            if e["arg"] == "fine":
+                # a short, very fine card: rows closer together than the calculator's maximum integration step
+                hr = calc.fire(shot, U.Foot(30), U.Foot(0.2))
+            else:
+                hr = calc.fire(shot, U.Foot(600), U.Foot(100), **kw)
             pool.kept.append((lambda hr=hr: ("Fire", tuple(scen.row_fp(r) for r in hr.trajectory)), "Fire"))
             return ("Fire", tuple(scen.row_fp(r) for r in hr.trajectory))
         if a == "FireRaises":
